@@ -13,8 +13,10 @@ ENGINES = [
      'kind_free_text': 'native driver enumerating its configuration universe under ASan/UBSan with exact-size buffers; abort-and-restart attribution through a breadcrumb file'},
     {'name': 'E3-vomp-schedule-explorer', 'path': 'native/vomp.c, native/c07drv.c, vf/props/c07.py', 'serves_properties': ['C07'],
      'kind_free_text': 'own GOMP_*/__tsan_* runtime with ucontext coroutines; CHESS-style iterative preemption bounding with replayable choice sequences; virtual multiprocessing pool with exhaustive completion orders'},
-    {'name': 'E2-history-explorer', 'path': 'vf/props/c13.py, c14.py, c15.py, c18.py, c20.py (check_histories)', 'serves_properties': ['C13', 'C14'],
+    {'name': 'E2-history-explorer', 'path': 'vf/props/c13.py, c14.py, c15.py, c18.py, c20.py (check_histories)', 'serves_properties': ['C13', 'C14', 'C15'],
      'kind_free_text': 'breadth-first enumeration of operation sequences; each prefix is replayed on a fresh live object; differential oracle = fresh-object / reference answer at every step'},
+    {'name': 'E5-choice-tape-explorer', 'path': 'vf/props/c16.py (Tape, Patched, explore_fit)', 'serves_properties': ['C16'],
+     'kind_free_text': 'every random draw is a choice point with all outcomes of non-zero probability as alternatives; DFS with prefix replay on fresh objects'},
 ]
 
 PENDING = 'check not built yet in this round (planned, see DESIGN.md section 4); not claimed until it exists and is silent on the unchanged tree'
@@ -112,6 +114,20 @@ CHECKS['C14'] = (E1 + '; ' + E2, 'E1-input-config-explorer + E2-history-explorer
     'the answer must be exactly the sorted exhaustive reference distances within the threshold (indices up to ties, right count). Every history up to depth 3 (4) over {kbest_matches(1|2|3|None), best_match, align(2), kbest_matches_fast(2), reset} is judged the same way at every step.',
     'Trusted: vf/oracles.py DTW; thresholds lie in gaps between distinct distances.',
     'DESIGN.md section 4 C14')
+
+E5 = 'exhaustive exploration of all random outcomes through an explorer-owned choice tape (depth-first over the choice tree), virtual worker pool'
+CHECKS['C15'] = (E2 + ' (merge state machine monitored on every transition)', 'E2-history-explorer',
+    'The distance function is a stub serving EVERY upper-triangular distance table for n = 2..4 over {1,2,3,inf} and n = 5 over {1,2,inf} (ties, duplicates, infinite entries) x 4 max_dist values x {none, weight, order, both} hooks; '
+    'each merge transition is checked through the public merge_hook (two live prototypes, distance = current minimum over live pairs, non-decreasing, <= max_dist) and the final state is checked to be a partition keyed by contained prototypes with no two prototypes within max_dist; '
+    'HierarchicalTree well-formedness (n-1 rows, every node a child once), repeated fits, LinkageTree == scipy linkage, and real dtw.distance_matrix (Python/C) on all small collections.',
+    'Trusted: the monitor invariants are a transcription of C15; tie-breaking order is not prescribed and not compared.',
+    'DESIGN.md section 4 C15')
+CHECKS['C16'] = (E5, 'E5-choice-tape-explorer',
+    'numpy.random.randint/choice and random.randint are replaced inside the harness by functions reading a choice tape; for every (data set, configuration) the complete tree of random outcomes is enumerated depth first '
+    '(for choice without replacement: every ordered subset of the support), i.e. a superset of all seeds. Every leaf (a complete KMeans.fit) is judged: keys 0..k-1, index sets partition all series, k means, every series with a nearest mean under the reference DTW, '
+    'performed_it <= max_it+1, monitor protocol; exceptions are violations. Data: multisets of 3..5 short series (duplicates included), k in {2,3}, 4 initialisations, 9 option sets incl. C engine and the virtual pool.',
+    'Trusted: vf/oracles.py DTW (1e-9 slack, means are not dyadic); the choice functions mirror numpy semantics incl. its ValueError for unsatisfiable draws. Leaf cap 20000 per tree (reported if hit).',
+    'DESIGN.md section 3 E5, section 4 C16')
 
 ALL = ['C%02d' % i for i in range(1, 21)]
 NOT_APPLICABLE = {p: PENDING for p in ALL if p not in CHECKS}
